@@ -348,6 +348,48 @@ fn size_accounting(ctx: &Ctx, n: u64) -> SubReport {
     )
 }
 
+/// A single slow step (a harness instruction registered through InstructionSet::add that sleeps
+/// 40 ms) overruns a 5 ms limit while items remain on EXEC: the run must stop with
+/// TimeLimitExceeded (the limit has passed and the program is not finished), whatever the
+/// number of remaining items. Sound for any machine speed: elapsed time only grows.
+fn slow_step(ctx: &Ctx) -> SubReport {
+    fn sleepy(_s: &mut pushr::push::state::PushState, _c: &pushr::push::instructions::InstructionCache) {
+        std::thread::sleep(std::time::Duration::from_millis(40));
+    }
+    let mut rep = SubReport::new("time-limit-slow-step");
+    for remaining in [1usize, 3, 10, 100, 400] {
+        for lead in [0usize, 2] {
+            let mut iset = pushr::push::instructions::InstructionSet::new();
+            iset.load();
+            iset.add("HARNESS.SLEEP".to_string(), pushr::push::instructions::Instruction::new(sleepy));
+            let mut s = StateSpec::default();
+            let mut prog: Vec<ItemSpec> = (0..lead).map(|_| ItemSpec::instr("NOOP")).collect();
+            prog.push(ItemSpec::instr("HARNESS.SLEEP"));
+            prog.extend((0..remaining).map(|_| ItemSpec::instr("NOOP")));
+            s.exec = prog;
+            s.config.eval_push_limit = 100_000;
+            s.config.eval_time_limit = 5;
+            s.config.growth_cap = 500;
+            let (mut real, _) = s.build();
+            let r = guarded(|| PushInterpreter::run(&mut real, &mut iset));
+            rep.evaluations += 1;
+            let case = json!({"program": format!("{} x NOOP, HARNESS.SLEEP (40 ms), {} x NOOP", lead, remaining), "eval_time_limit_ms": 5});
+            match r {
+                Err((loc, msg)) => rep.fail(ctx, Fail::new(format!("C02/time-limit/panic@{}", loc), msg), case),
+                Ok(o) => {
+                    if o != PushInterpreterState::TimeLimitExceeded {
+                        rep.fail(ctx, Fail::new("C02/time-limit/not-reported-after-a-slow-step", format!("a 40 ms step overran the 5 ms limit with {} items left on EXEC but run() returned {:?}", remaining, o)), case);
+                    } else {
+                        rep.nontrivial.insert((remaining * 10 + lead) as u64);
+                        rep.sample(case);
+                    }
+                }
+            }
+        }
+    }
+    rep
+}
+
 pub fn run(ctx: &Ctx) -> PropReport {
     let mut rep = PropReport::new(
         "RAND-free programs (general trees over the registry, flat literal lists unpacked in one step, EXEC.Y loops, DUP/FLUSH/FROMINT mixes, several top-level EXEC items) x initial states with and without CODE content x eval_push_limit in {-1,0,1,2,3} u [0,L] x growth_cap in {0,1,2,3,5,10,500}; non-trivial = outcome other than NoErrors, or NoErrors after >= 5 steps; distinct = (state, program, limits) digest",
@@ -357,9 +399,10 @@ pub fn run(ctx: &Ctx) -> PropReport {
     rep.assumptions.push("cases whose single-stepping leaves the C01 resource envelope or meets a size operand > 4096 are abandoned before run() is called (counted as abandoned-*)".into());
     rep.assumptions.push("time-limit sub-check: a run slower than limit + 3 s is inconclusive, never a violation".into());
     let l = ctx.tier.pick(60, 400);
-    rep.push(run_sharded(ctx, "run-vs-step", ctx.tier.pick(20_000, 600_000), move || case_strategy(l), judge, |c| json!({"state": c.state.to_json(), "program": c.state.exec.iter().map(|x| x.render()).collect::<Vec<_>>().join(" "), "eval_push_limit": c.state.config.eval_push_limit, "growth_cap": c.state.config.growth_cap})));
-    rep.push(size_accounting(ctx, ctx.tier.pick(4_000, 100_000)));
+    rep.push(run_sharded(ctx, "run-vs-step", ctx.tier.pick(100_000, 1_000_000), move || case_strategy(l), judge, |c| json!({"state": c.state.to_json(), "program": c.state.exec.iter().map(|x| x.render()).collect::<Vec<_>>().join(" "), "eval_push_limit": c.state.config.eval_push_limit, "growth_cap": c.state.config.growth_cap})));
+    rep.push(size_accounting(ctx, ctx.tier.pick(20_000, 200_000)));
     rep.push(time_limit(ctx));
+    rep.push(slow_step(ctx));
     rep
 }
 
